@@ -545,6 +545,272 @@ def run_C19(ctx):
         ctx.report('obligation:' + broken[0], f'proof obligation(s) no longer check: {broken[:5]}', {'broken': broken}, found=False)
 
 
+
+def run_stream(ctx, module, prefix, n, label, rule, **kw):
+    import importlib
+    mod = importlib.import_module(module)
+    r = mod.run(ctx.seed, n, lambda lines: common.run_driver([prefix + ' ' + l for l in lines]), **kw)
+    ctx.streams[label] = {
+        'cases': r['cases'], 'disagreements': len(r['disagreements']),
+        'distribution': dict(list(r.get('distribution', {}).items())[:60]),
+        'distinct_nontrivial': r.get('distinct_nontrivial', r['cases']),
+        'rule': rule, 'samples': r.get('samples', [])[:2]}
+    return r['disagreements']
+
+
+ADVERSARIAL_INPUTS = ['nan', 'NaN', 'inf', '-inf', 'Infinity', '1e999', '-1e999', '1_0.5', '1__0', '_1', ' 12 ', '+5', '1e3',
+                      '\u0661\u0662', '\uff11\uff12', '', '  ', 'yes', 'YES', ' On', 'ja', 'true ', 'Tru', '0x10', '1.', '.5', '1,000',
+                      '123-45-6789', '123456789', '12345678', '1234567890', '12345678a', '- -', 'Single', 'single', ' Single ',
+                      'Singl', '011000015', '011000015\n', '001000015', 'ACCT-12345', 'a' * 18, '--', '5.', '٣']
+
+
+def oracle_c11():
+    """statement of C11 on the REAL classes: whatever InputStore[...] returns passed valid(), equals
+    value(), has the declared type and is finite; rejected text raises InvalidInput; absent raises
+    MissingInput; by file and by prompt (__setitem__)."""
+    import configparser
+    import math
+    from habutax import inputs as hi, enum as henum
+    probs, checked = [], 0
+    specs = [('s', hi.StringInput('s'), str), ('b', hi.BooleanInput('b'), bool), ('i', hi.IntegerInput('i'), int),
+             ('f', hi.FloatInput('f'), float), ('e', hi.EnumInput('e', henum.filing_status), None),
+             ('ee', hi.EnumInput('ee', henum.taxpayer_or_spouse, allow_empty=True), None),
+             ('r', hi.RegexInput('r', '^(0[1-9]|1[0-2]|2[1-9]|3[0-2])[0-9]{7}$'), str),
+             ('a', hi.RegexInput('a', '^[0-9A-Za-z\\-]{1,17}$'), str), ('n', hi.SSNInput('n'), str)]
+
+    class FakeForm:
+        def name(self):
+            return 'f'
+    for _, inp, _ in specs:
+        inp.__form_init__(FakeForm())
+    texts = [t.encode().decode('unicode_escape') if '\\u' in t else t for t in ADVERSARIAL_INPUTS]
+    for base, inp, ty in specs:
+        for t in texts:
+            for route in ('file', 'set'):
+                cfg = configparser.ConfigParser(interpolation=None)
+                store = hi.InputStore(cfg, {inp.name(): inp})
+                try:
+                    if route == 'file':
+                        cfg.read_dict({'f': {base: t}})
+                    else:
+                        store[inp.name()] = t
+                except Exception as e:  # noqa: BLE001
+                    continue
+                checked += 1
+                try:
+                    v = store[inp.name()]
+                except hi.InvalidInput:
+                    if inp.valid(t):
+                        probs.append((f'{type(inp).__name__}:{t!r}', f'{type(inp).__name__}: valid text {t!r} reported invalid'))
+                    continue
+                except hi.MissingInput:
+                    probs.append((f'{type(inp).__name__}:{t!r}', f'{type(inp).__name__}: supplied text {t!r} reported missing'))
+                    continue
+                except Exception as e:  # noqa: BLE001
+                    probs.append((f'{type(inp).__name__}:{t!r}', f'{type(inp).__name__}: text {t!r} escapes as {type(e).__name__}'))
+                    continue
+                stored = cfg.get('f', base)
+                if not inp.valid(stored):
+                    probs.append((f'{type(inp).__name__}:{t!r}', f'{type(inp).__name__}: rejected text {t!r} reached a line as {v!r}'))
+                if ty is not None and type(v) is not ty:
+                    probs.append((f'{type(inp).__name__}:{t!r}', f'{type(inp).__name__}: {t!r} gives {type(v).__name__}, declared {ty.__name__}'))
+                if isinstance(v, float) and not math.isfinite(v):
+                    probs.append((f'{type(inp).__name__}:{t!r}', f'{type(inp).__name__}: {t!r} gives the non-finite number {v!r}'))
+        # absent
+        cfg = configparser.ConfigParser(interpolation=None)
+        cfg.read_dict({'f': {'other': '1'}, 'DEFAULT': {}})
+        store = hi.InputStore(cfg, {inp.name(): inp})
+        checked += 1
+        try:
+            v = store[inp.name()]
+            probs.append((f'{type(inp).__name__}:absent', f'{type(inp).__name__}: absent input silently defaults to {v!r}'))
+        except hi.MissingInput:
+            pass
+    return probs, checked
+
+
+def run_C11(ctx):
+    broken = check_obligations(ctx, PROPS['C11']['theorems'])
+    dis = run_stream(ctx, 'inputs_stream', 'inp', ctx.n(12000, 150000), 'inputs',
+                     'every input class valid/value and InputStore[...] on adversarial strings (whitespace incl. Unicode, case, signs, exponents, nan/inf, underscores, Unicode digits, near-miss enum names, trailing newline): real classes vs Lean model',
+                     **({'thorough': True} if ctx.tier == 'thorough' else {}))
+    probs, checked = oracle_c11()
+    ctx.statement['c11-gate'] = {'checked': checked, 'violations': len(probs), 'distinct_nontrivial': checked,
+                                 'rule': 'each input class x adversarial text x (file, prompt route) through the real InputStore: result valid, typed, finite; rejected -> InvalidInput; absent -> MissingInput',
+                                 'samples': [{'texts': ADVERSARIAL_INPUTS[:8]}]}
+    for key, msg in probs:
+        ctx.report('gate:' + key, msg, {'kind': 'input-text', 'case': key})
+    if not probs:
+        if dis:
+            ctx.report('correspondence:inputs', 'input model and real classes disagree: ' + str(dis[0])[:300], {'disagreement': dis[0]}, found=False)
+        elif broken:
+            ctx.report('obligation:' + broken[0], f'proof obligation(s) no longer check: {broken[:5]}', {'broken': broken}, found=False)
+
+
+def oracle_c12(runs):
+    """type / rounding / blank audit: stub definitions through the real Field classes, and all values of real returns"""
+    import enum as pyenum
+    from habutax import fields as hf, enum as henum
+    probs, checked = [], 0
+
+    class FakeForm:
+        def name(self):
+            return 'f'
+
+    class MyInt(int):
+        pass
+
+    class MyStr(str):
+        pass
+
+    class MyFloat(float):
+        pass
+
+    class IE(pyenum.IntEnum):
+        A = 1
+    vals = [None, '', '   ', 'x', True, False, 0, 7, -3, 1.005, 2.675, -0.001, 1e20, MyInt(3), MyStr('q'), MyFloat(1.5), IE.A,
+            henum.filing_status.Single, henum.taxpayer_or_spouse.spouse, [1], (1, 2), 10 ** 30]
+    mk = [('str', lambda fn: hf.StringField('l', fn), str, ''), ('bool', lambda fn: hf.BooleanField('l', fn), bool, False),
+          ('int', lambda fn: hf.IntegerField('l', fn), int, 0), ('float2', lambda fn: hf.FloatField('l', fn), float, 0.0),
+          ('float0', lambda fn: hf.FloatField('l', fn, places=0), float, 0.0),
+          ('float5', lambda fn: hf.FloatField('l', fn, places=5), float, 0.0),
+          ('enum', lambda fn: hf.EnumField('l', henum.filing_status, fn), henum.filing_status, None)]
+    for name, ctor, ty, empty in mk:
+        for v in vals:
+            f = ctor(lambda s, i, vv, v=v: v)
+            f.__form_init__(FakeForm())
+            checked += 1
+            blank = v is None or (isinstance(v, str) and v.strip() == '')
+            try:
+                out = f.value({}, {})
+            except TypeError as e:
+                if blank or type(v) is ty:
+                    probs.append((f'{name}:{v!r}', f'{name} line rejected a correctly typed/blank value {v!r}'))
+                elif 'f.l' not in str(e):
+                    probs.append((f'{name}:{v!r}', f'{name} line: TypeError does not name the line: {e}'))
+                continue
+            except Exception as e:  # noqa: BLE001
+                probs.append((f'{name}:{v!r}', f'{name} line: value {v!r} escapes as {type(e).__name__}'))
+                continue
+            if blank:
+                if not same_value(out, empty) and not (out is None and empty is None):
+                    probs.append((f'{name}:{v!r}', f'{name} line: blank answer stored as {out!r}, empty value is {empty!r}'))
+            elif type(v) is not ty:
+                probs.append((f'{name}:{v!r}', f'{name} line stored a value of type {type(v).__name__}: {out!r}'))
+            elif name.startswith('float'):
+                places = int(name[5:])
+                if out != round(v, places) or round(out, places) != out:
+                    probs.append((f'{name}:{v!r}', f'{name} line: {v!r} stored as {out!r}, not rounded to {places} places'))
+    # audit of real returns
+    for r in runs:
+        if r['exception'] is not None:
+            continue
+        s = r['solver']
+        for n, v in s._v.values.items():
+            f = s._field_map[n]
+            checked += 1
+            if v is None and isinstance(f, hf.EnumField):
+                continue
+            if type(v) is not f._type:
+                probs.append((f'real:{n}', f'{r["year"]} {n}: stored {v!r} of type {type(v).__name__}, line declares {f._type.__name__}'))
+            elif isinstance(f, hf.FloatField) and round(v, f._places) != v:
+                probs.append((f'real:{n}', f'{r["year"]} {n}: stored {v!r} is not rounded to {f._places} places'))
+    return probs, checked
+
+
+def run_C12(ctx):
+    broken = check_obligations(ctx, PROPS['C12']['theorems'])
+    dis = run_stream(ctx, 'fields_stream', 'inp', ctx.n(12000, 150000), 'fields',
+                     'Field.value / to_string / from_string with stub definitions returning every kind of Python value (bool for int line, int for float line, subclasses, None, blanks, other enums): real classes vs Lean model')
+    runs = real_runs(ctx, ctx.n(45, 600))
+    probs, checked = oracle_c12(runs)
+    ctx.statement['c12-typed'] = {'checked': checked, 'violations': len(probs),
+                                  'distinct_nontrivial': sum(1 for r in runs if r['exception'] is None),
+                                  'rule': 'stub definitions x line types through the real Field.value; plus type/rounding audit of every value stored by real returns; non-trivial = finished real solve',
+                                  'samples': [{'year': r['year'], 'values': len(r['solver']._v.values)} for r in runs[:2]]}
+    for key, msg in probs:
+        ctx.report('typed:' + key, msg, {'kind': 'field-value', 'case': key})
+    if not probs:
+        if dis:
+            ctx.report('correspondence:fields', 'field model and real classes disagree: ' + str(dis[0])[:300], {'disagreement': dis[0]}, found=False)
+        elif broken:
+            ctx.report('obligation:' + broken[0], f'proof obligation(s) no longer check: {broken[:5]}', {'broken': broken}, found=False)
+
+
+def load_errata():
+    try:
+        return json.load(open(os.path.join(VERIF, 'tools', 'c18_label_errata.json')))['errata']
+    except FileNotFoundError:
+        return []
+
+
+def is_erratum(w, errata):
+    for e in errata:
+        if str(w.get('template', '')).endswith(e['template_suffix']) and e['target_contains'] in str(w.get('target', '')) \
+                and w.get('line') == e['mapped_line'] and w.get('expected') == e['template_label']:
+            return True
+    return False
+
+
+def run_c17_c18(ctx, prop):
+    import c17_c18_oracle as orc
+    broken = check_obligations(ctx, PROPS[prop]['theorems'])
+    gen = ctx.gen_info
+    for f in gen.get('failed', []):
+        ctx.notes.append('generator failure: ' + str(f)[:500])
+    obl = [o for o in gen.get('c17_c18_obligations', {}).get('obligations', []) if o['property'] == prop]
+    errata = load_errata()
+    failed = {f['id']: f for f in gen.get('c17_c18_failed', []) if f['property'] == prop}
+    for o in obl:
+        ok = o['holds'] and ctx.build_ok
+        ctx.obligations.append({'name': 'Gen.' + o['id'], 'ok': bool(ok), 'check': o['check'], 'counts': o.get('counts')})
+    ctx.gen_info = {'summary': gen.get('c17_c18_obligations', {}).get('summary'), 'failed_ids': list(failed)}
+    # the real-object oracle (independent of the generator's tables)
+    res = orc.run(ctx.seed, ctx.tier)
+    mine = [v for v in res['violations'] if v.get('property') == prop]
+    ctx.statement[prop.lower() + '-oracle'] = {
+        'checked': sum(v for v in res['checked'].values() if isinstance(v, int)), 'violations': len(mine),
+        'distinct_nontrivial': sum(v for v in res['checked'].values() if isinstance(v, int)),
+        'detail': res['checked'], 'rule': 'the same checks evaluated directly on the real Form objects, parsed templates and real list-forms / list-form-inputs output (parsed back with the real configparser)',
+        'samples': res.get('samples', [])[:2]}
+    reported = 0
+    n_errata = 0
+    for fid, f in failed.items():
+        ws = [w for w in f.get('witnesses', []) if not is_erratum(w, errata)]
+        n_errata += len(f.get('witnesses', [])) - len(ws)
+        for w in ws:
+            key = f"{fid}:{w.get('line', w.get('what', ''))}"
+            ctx.report(key, f"{f['check']} fails: {json.dumps(w, default=str)[:300]}", {'obligation': fid, 'witness': w})
+            reported += 1
+        if not ws:
+            # all witnesses are errata of the oracle: the `_rest` theorem covers every other row
+            for o in ctx.obligations:
+                if o['name'] == 'Gen.' + fid:
+                    o['ok'] = ctx.build_ok
+                    o['note'] = 'holds on all rows except documented template-text errata (tools/c18_label_errata.json); proved as <id>_rest'
+    for v in mine:
+        w = v.get('witness', {}) if isinstance(v.get('witness'), dict) else {}
+        if is_erratum(dict(w, template=w.get('template', v.get('template', ''))), errata):
+            continue
+        key = f"oracle:{v.get('year')}:{v.get('form')}:{str(v.get('what'))[:40]}"
+        if not any(str(v.get('form')) in k for k, *_ in ctx.violations) and not any(str(v.get('form')) in k for k, _ in ctx.known_hits):
+            ctx.report(key, f"{v.get('what')}: {json.dumps(v.get('witness'), default=str)[:300]}", {'oracle_violation': v})
+            reported += 1
+    ctx.notes.append(f'label errata applied to {n_errata} witnesses')
+    if not ctx.build_ok and not reported:
+        ctx.report('obligation:build', 'generated obligations no longer build', {'log': ctx.build_log[-2000:]}, found=False)
+    elif broken and not reported:
+        ctx.report('obligation:' + broken[0], f'proof obligation(s) no longer check: {broken[:5]}', {'broken': broken}, found=False)
+
+
+def run_C17(ctx):
+    run_c17_c18(ctx, 'C17')
+
+
+def run_C18(ctx):
+    run_c17_c18(ctx, 'C18')
+
+
 PROPS = {
     'C01': dict(run=run_C01, theorems=[
         'HabuVerif.C01.solved_sound', 'HabuVerif.C01.failed_complete',
@@ -562,6 +828,27 @@ PROPS = {
         'HabuVerif.C05.schedule_independent', 'HabuVerif.C05.no_error_outcome_in_final'],
         assumptions=['prompt is absent or answers every question as a function of the input name (partial refusal is order-dependent by nature and excluded, as the property says)',
                      'agreement of the abort KIND across schedules is not proved (partial); INI layout independence is proved for written files (Ini lemmas) and tested for hand-laid-out files']),
+    'C11': dict(run=run_C11, theorems=['HabuVerif.C11.' + t for t in [
+        'line_sees_only_valid_typed_finite', 'rejected_text_is_invalid', 'missing_iff_not_supplied',
+        'no_conversion_error_escapes', 'nonfinite_is_invalid', 'valid_float_is_finite', 'nan_inf_are_literals',
+        'boolean_accepts_exactly', "ssn_accepts", "enum_accepts", 'valid_implies_value']],
+        assumptions=['Unicode character classes come from the running interpreter (table regenerated each run; theorems hold for every table)',
+                     'the [DEFAULT] section of an input file counts as supplying an input for sections that exist (configparser semantics; see Ini lemmas)']),
+    'C12': dict(run=run_C12, theorems=['HabuVerif.C12.' + t for t in [
+        'stored_value_typed', 'blank_is_empty_value', 'other_type_rejected', 'bool_rejected_for_integer_line',
+        'int_rejected_for_money_line', 'money_is_rounded', 'input_form_line_total']],
+        assumptions=['round(x, n) idempotent is a hypothesis of money_is_rounded, discharged for the F64 model in Proofs/F64Lemmas (range stated there)']),
+    'C17': dict(run=run_C17, theorems=['HabuVerif.C17.' + t for t in [
+        'names_unique', 'threshold_lookup_total', 'all_threshold_lookups_total', 'names_clean',
+        'every_class_instantiates', 'declared_year_is_directory_year', 'metadata_present']],
+        assumptions=['tools/catalogue.py (introspection of the real classes) and the generator are validated against an independent oracle over the real objects, not proved',
+                     '2021/2022 forms hard-code status amounts in if/elif chains (no threshold tables): their totality is covered by the translated programs (C08/C10), not here']),
+    'C18': dict(run=run_C18, theorems=['HabuVerif.C18.' + t for t in [
+        'every_target_exists', 'no_field_driven_twice', 'labelled_line_is_mapped_line', 'length_limits_agree',
+        'export_values_are_on_states', 'exclusive_groups_at_most_one_on', 'every_mapped_line_exists',
+        'fileable_forms_have_template_and_mappings']],
+        assumptions=['tools/pdf_extract.py (own PDF/XFA reader; cross-checked by two extraction routes and by the pdftk listings kept in the form sources) and the label grammar are trusted',
+                     'two documented template-text errata are excluded from the label check (tools/c18_label_errata.json)']),
     'C19': dict(run=run_C19, theorems=[
         'HabuVerif.C19.fdf_decodes', 'HabuVerif.C19.carriage_return_is_lossy',
         'HabuVerif.C19.unescaped_does_not_decode', 'HabuVerif.C19.filled_iff_needs_filing',
